@@ -54,6 +54,13 @@ Check C11_same_verdict : forall A cfg, map_normalize A [] = [] -> forall d deny 
   res_err (to_ascii A cfg d deny hy DIgnore) = ui_err (to_user_interface A cfg d deny hy p).
 Print Assumptions C11_same_verdict.
 
+(* the adapter premise of C11_same_verdict cannot be dropped: with an adapter that maps the empty text to "a", the
+   label "xn--a-" is an error for to_ascii and no error for to_unicode, outside Known_C11 *)
+Theorem C11_same_verdict_unconditional_refuted : exists A, forall cfg, ~ C11_same_verdict_statement A cfg.
+Proof. exact c11_same_verdict_unconditional_refuted. Qed.
+Check C11_same_verdict_unconditional_refuted : exists A, forall cfg, ~ C11_same_verdict_statement A cfg.
+Print Assumptions C11_same_verdict_unconditional_refuted.
+
 (* the step behind it: when the marking run of process_inner has set had_errors, then outside Known_C11 process ends
    in a validity error, a sink error or a panic - never in Passthrough or WroteToSink (any sinks, any policy) *)
 Theorem C11_mark_err_status : forall A cfg d deny hy p k1 k2 w ptu bd db ap,
